@@ -591,3 +591,130 @@ func TestVerifKF_C02_FailedResponseNotAwaited(t *testing.T) {
 }
 
 var _ = sort.Strings
+
+
+// ---- facet C02/stop-writer -------------------------------------------------------------------------------------
+//
+// A stop request arriving while captured responses still wait for the WARC writer (slow disk, busy writer pool, large
+// record). stopPipeline() stops the stages one after the other, so a seed let go early by the archiver would still reach
+// the finisher and be reported finished - with its records not yet in the WARC files. The writers are held behind a gate;
+// the stop is issued once the origins have answered; every finish message, whenever it arrives, is held to rule B at its
+// own instant; then the gate opens and the stop must complete.
+
+func propC02StopWriter(t veriflib.TB, c Case) {
+	const facet = "C02/stop-writer"
+	t0 := time.Now()
+	dir, err := os.MkdirTemp(os.Getenv("VERIF_SCRATCH"), "netsw")
+	if err != nil {
+		t.Fatalf("harness: %v", err)
+	}
+	p, err := Start(c.Settings, dir)
+	if err != nil {
+		t.Fatalf("harness: start: %v", err)
+	}
+	defer p.Cleanup()
+	p.Farm.AddSite(c.Site)
+	release := p.HoldWARCWriter()
+	hist := func() c02Hist {
+		return c02Hist{Finished: p.NFinished(), Requests: p.Farm.LogLen(), Elapsed: time.Since(t0).String()}
+	}
+	insDone := make(chan struct{})
+	go func() {
+		defer close(insDone)
+		for _, sp := range c.Seeds {
+			if p.Insert(sp.ID, p.Farm.URL(sp.Ref)) != nil {
+				return // refused by the frozen reactor once the stop has begun
+			}
+		}
+	}()
+	// the origins have answered what they will answer while the writers are held: the request log stops growing
+	for last, since, start := -1, time.Now(), time.Now(); time.Since(since) < 400*time.Millisecond && time.Since(start) < 15*time.Second; time.Sleep(10 * time.Millisecond) {
+		if n := p.Farm.LogLen(); n != last {
+			last, since = n, time.Now()
+		}
+	}
+	held := p.WARCQueue()
+	stopDone := make(chan struct{})
+	go func() { p.Stop(); close(stopDone) }()
+	select {
+	case <-stopDone:
+	case <-time.After(1500 * time.Millisecond):
+	}
+	duringHold := p.NFinished()
+	release()
+	select {
+	case <-stopDone:
+	case <-time.After(c.Settings.Window() + 30*time.Second):
+		c02Die(facet, c, hist(), fmt.Sprintf("Stop() did not return within %s after the WARC writers were released (%d connection(s) were waiting for them when the stop began)", c.Settings.Window()+30*time.Second, held))
+	}
+	<-insDone
+	all := p.Farm.LogNow("")
+	fins := p.Finishes()
+	final := &warcIndex{dir: p.WARCDir, offsets: map[string]int64{}}
+	finalSnap, finalErr := final.refresh()
+	fail := func(h c02Hist, f string, a ...any) {
+		h.Message = fmt.Sprintf(f, a...)
+		veriflib.Fail(t, "C02", facet, c, h, "%s", h.Message)
+	}
+	if finalErr != nil {
+		fail(hist(), "WARC files do not parse after the stop: %v", finalErr)
+	}
+	if len(finalSnap.Truncated) > 0 {
+		fail(hist(), "after the stop the WARC file(s) %v end in an incomplete member", finalSnap.Truncated)
+	}
+	byID := map[string]SeedPlan{}
+	for _, sp := range c.Seeds {
+		byID[sp.ID] = sp
+	}
+	for _, f := range fins {
+		sp := byID[f.Item.GetID()]
+		var entries []Entry
+		for _, e := range all {
+			if strings.HasPrefix(e.Target, sp.Prefix) && e.Seq < f.Seq {
+				entries = append(entries, e)
+			}
+		}
+		h := hist()
+		h.Entries = entries
+		if f.WARCError != "" {
+			fail(h, "at the instant seed %s was reported finished (during a stop) the WARC files did not parse: %s", sp.ID, f.WARCError)
+		}
+		if veriflib.FindingOpen(c02KFLate) {
+			// responses on archive()'s retry / retries-exhausted path are not waited for (open finding): left out, counted
+			kept := entries[:0:0]
+			for _, e := range entries {
+				if c02Retried(e) {
+					veriflib.Excluded(facet, "response on archive()'s retry / retries-exhausted path (open finding "+c02KFLate+")")
+					continue
+				}
+				kept = append(kept, e)
+			}
+			entries = kept
+		}
+		if missing, why := c02Missing(f.Snapshot, entries, c.Settings); len(missing) > 0 {
+			h.Records = c02RecordsFor(finalSnap, missing[0].URL)
+			fail(h, "a stop was requested while %d connection(s) were waiting for the WARC writers; seed %s was then reported finished although its records were not in the WARC files at that instant: %s", held, sp.ID, why[0])
+		}
+	}
+	veriflib.Record(facet, veriflib.JSON(c), held > 0, []string{fmt.Sprintf("waiting-for-writer-at-stop:%d", min(held, 4)), fmt.Sprintf("finished-while-held:%d", min(duringHold, 3)), fmt.Sprintf("finished-in-all:%d", min(len(fins), 4)),
+		fmt.Sprintf("workers:%d", c.Settings.Workers), fmt.Sprintf("pool:%d", c.Settings.WARCPool)}, func() any {
+		return map[string]any{"settings": c.Settings, "seeds": len(c.Seeds), "held": held, "finished": len(fins), "requests": len(all)}
+	})
+}
+
+func TestVerif_C02_StopWriter(t *testing.T) {
+	defer veriflib.Flush()
+	var rc Case
+	if veriflib.ReplayCase("C02/stop-writer", &rc) {
+		for i := 0; i < 4; i++ {
+			propC02StopWriter(t, rc)
+		}
+		return
+	} else if veriflib.Replaying() {
+		t.Skip()
+	}
+	rapid.Check(t, func(rt *rapid.T) {
+		c := genC02Case(rt)
+		veriflib.Guard("C02", "C02/stop-writer", c, func() { propC02StopWriter(c02TB{rt}, c) })
+	})
+}
